@@ -232,7 +232,7 @@ def jobs(tier, seed):
     # string-weight queries on parsers built on the grammar itself (no prefix transform): mutual left recursion with two
     # entry points, several rule orders (the left-corner prediction closure depends on the internal numbering)
     mlr = grammar("G-MLR")
-    calls = [("call", list(x)) for x in ["ace", "bde", "adxe", "bcze", "acyzxe", "bdxze", "acye"]]
+    calls = [("call", list(x)) for x in ["ace", "bde", "adxe", "bcze", "bcyze", "acyzxe", "bdxze", "acye"]]
     perms = [None, list(reversed(range(mlr.K))), [2, 3, 0, 1, 4, 5, 6, 7], [3, 2, 1, 0, 7, 6, 5, 4]]
     for kind, cname in [("EarleyPlain", "history"), ("EarleyRescaledPlain", "history_num"), ("CKYPlain", "history")]:
         for pm in (perms[:2] if quick else perms):
